@@ -539,6 +539,28 @@ class LenClass:
             if len(pos) == 3:
                 return self._joinall(pos, n)
             return TOP
+        if short == "place" and len(pos) == 3:
+            # np.place(a, m, v) stores the FIRST count(m) values of v, in order: v must be the selection m makes
+            cb, cm, cv = self.of(pos[0]), self.of(pos[1]), self.of(pos[2])
+            if is_def(cm) and is_def(cb) and cm != cb:
+                self.conflicts.append(Conflict(n, cb, cm, "store mask belongs to a different event "
+                                                            "population than the array it indexes"))
+            want = ("SEL", cb if is_def(cb) else cm, self.g.vn(pos[1]))
+            if is_def(cv) and is_def(want[1]) and cv != want:
+                self.conflicts.append(Conflict(n, want, cv, "np.place consumes its values by position: they are "
+                                                            "not the selection made by the mask"))
+            return cb
+        if short == "putmask" and len(pos) == 3:
+            cv = self.of(pos[2])
+            c = self.join(self.of(pos[0]), self.of(pos[1]), n, "np.putmask mask")
+            if cv != S:
+                self.join(c, cv, n, "np.putmask values are taken at the masked positions")
+            return self.of(pos[0])
+        if short == "copyto" and len(pos) >= 2:
+            c = self.join(self.of(pos[0]), self.of(pos[1]), n, "np.copyto source")
+            if kws.get("where") is not None:
+                self.join(c, self.of(kws["where"]), n, "np.copyto mask")
+            return self.of(pos[0])
         if short in X.ALLOC_LIKE:
             return self.of(pos[0]) if pos else TOP
         if short in ("asarray", "array", "copy", "asanyarray", "ascontiguousarray", "squeeze",
